@@ -182,6 +182,10 @@ if __name__ == '__main__':
                 m = re.match(r'\| (C\d\d-m\d+) \|', l)
                 out.append(new.pop(m.group(1)) if m and m.group(1) in new else l)
             out = [l for l in out if not l.startswith('(rows refreshed')]
+            # rows of changes imported after the last full run are inserted after the last row of the table
+            if new:
+                last = max(i for i, l in enumerate(out) if l.startswith('| C'))
+                out[last + 1:last + 1] = [new[k] for k in sorted(new)]
             while out and out[-1] == '':
                 out.pop()
             out.append('')
